@@ -28,4 +28,46 @@ CHECKS = {
         "design_ref": "DESIGN.md 2/C03",
         "note": "Error codes restricted to the shipped table; durations to the timedelta-representable range.",
     },
+    "C05": {
+        "level": "exploration",
+        "technique": "wire-first property-based testing: decode->encode against reference canonical bytes, idempotence on accepted inputs",
+        "text": "Reference-encoded canonical trees over the full wire domain (biased to lossy-prone values: non-zero ms, |duration|>2^53 ms, -0.0, NaN payloads, max-length strings, zero/non-zero UUIDs) must be reproduced bit for bit by kio decode->encode; non-canonical accepted encodings must be re-encodable and idempotent under decode->encode.",
+        "design_ref": "DESIGN.md 2/C05",
+        "note": "Canonical bytes come from kv.refcodec; sampling of an infinite domain.",
+    },
+    "C06": {
+        "level": "fault_enumeration",
+        "technique": "property-based instance generation x exhaustive enumeration of every truncation point",
+        "text": "For each generated instance every strict prefix (all cut positions 0..len-1) is decoded from a read-only, call-counting source; only BufferUnderflow is accepted. Cuts are enumerated completely per instance; instances are sampled per class.",
+        "design_ref": "DESIGN.md 2/C06",
+        "note": "Encodings capped at 4096 bytes; hang detection by read-call budget (2*len+8), not wall clock.",
+    },
+    "C08": {
+        "level": "exploration",
+        "technique": "exhaustive enumeration of all request/response classes against an independent implementation of the Kafka header rule and pinned facts",
+        "text": "All 323+323 payload classes are checked (finite, complete): header schema by identity against an own implementation of Kafka's rule fed from pinned api keys / first flexible versions, key and flexibility agreement of each pair, and mutual inverseness of the request<->response mapping for classes and instances.",
+        "design_ref": "DESIGN.md 2/C08",
+        "note": "Pins (fixtures/kafka-3.9.0-pins.json) are hand-reviewed Kafka 3.9.0 facts; they are the trusted base.",
+    },
+    "C09": {
+        "level": "exploration",
+        "technique": "exhaustive enumeration of the valid index domain + near-miss enumeration + Hypothesis-drawn arbitrary arguments",
+        "text": "Every on-disk module and every api key is resolved through all lookup functions and compared by identity with the module/class found by an independent disk walk; disk set == index set; every one-step-outside argument and thousands of arbitrary ints/strings must raise exactly the documented errors.",
+        "design_ref": "DESIGN.md 2/C09",
+        "note": "entity_type arguments are EntityType members; bool is not used for int arguments.",
+    },
+    "C13": {
+        "level": "exploration",
+        "technique": "exhaustive enumeration of all classes x fields against a rule set evaluated through independent reflection",
+        "text": "All 1629 classes / 5094 fields are checked against the coherence rules (kafka_type vs annotation, nullability, tuple arrays, defaults inhabit the type, tags unique/non-negative/flexible-only with resolvable default agreeing with kio's own resolution), and reader+writer are derived and exercised on zero and defaults-only instances.",
+        "design_ref": "DESIGN.md 2/C13",
+        "note": "Finite space, fully enumerated on every run.",
+    },
+    "C14": {
+        "level": "exploration",
+        "technique": "exhaustive enumeration of all version modules and (API, type) families against structural rules and pinned version ranges",
+        "text": "All 666 modules and 186 families: shared class variables per module, path vs class identity (own snake-casing), contiguity, monotone flexibility, constant and unique api key, equal request/response version sets, all compared with the pins.",
+        "design_ref": "DESIGN.md 2/C14",
+        "note": "Pins are the trusted base for ranges and first flexible versions.",
+    },
 }
